@@ -15,6 +15,8 @@ THEOREMS = [
     # 3 <-> 4 index notations
     'C16.plane34_roundtrip', 'C16.plane43_int_roundtrip', 'C16.vector34_roundtrip', 'C16.vector4_same_direction',
     'C16.sumIsZero_int', 'C16.plane4_api',
+    # arrays of four-index sets: one guard for the whole array = every row's own guard
+    'C16.guardAll_iff', 'C16.plane4to3Arr_eq_mapM', 'C16.vector4to3Arr_eq_mapM', 'C16.plane4to3Arr_int',
     # plane normal = reciprocal-lattice direction, zone law
     'C16.idx_cross_parallel', 'C16.planeInPlane_zero', 'C16.cross_of_lattice_vectors', 'C16.normal_is_reciprocal',
     'C16.normal_unit_along_reciprocal', 'C16.normal_left_handed', 'C16.recip_dot_lattice', 'C16.normal_perp_iff_zone',
@@ -470,24 +472,32 @@ def correspond(ctx):
             for name, f, op in (('plane4to3', miller.plane4to3, 'p43'), ('vector4to3', miller.vector4to3, 'v43')):
                 r, e = _call(f, list(bad))
                 B.add(name + ':guard', f'{op} {atol_s} %d %d %d %d' % bad, r, e, _cmp_exact, list(bad), nontrivial=False)
-    # an array with bad rows is rejected as a whole: the model maps the guard over the rows (first error wins), the
-    # implementation gets the array; offsets may cancel across rows
-    for _ in range(ctx.n(60, 600)):
-        cnt = rng.randint(2, 7)
+    # arrays of four-index sets (model ops p43arr / v43arr: one guard for the whole array): all rows valid, some rows
+    # off (offsets may cancel across rows), several leading shapes
+    for it in range(ctx.n(120, 1200)):
+        shape = rng.choice([None, None, (2, 2), (2, 3), (3, 1), (1, 2, 2)])
+        cnt = rng.randint(1, 7)
+        if shape is not None:
+            cnt = 1
+            for d in shape:
+                cnt *= d
         rows = [list(q) for q in rng.sample(quads_ok, cnt)]
-        offs, kind = _guard_offsets(rng, cnt)
+        offs, kind = ([0] * cnt, 'valid') if (it % 3 == 0 or cnt < 2) else _guard_offsets(rng, cnt)
         for j, d in enumerate(offs):
             rows[j][2] += d
         arr = np.array(rows)
-        for name, f, op in (('plane4to3', miller.plane4to3, 'p43'), ('vector4to3', miller.vector4to3, 'v43')):
+        if shape is not None:
+            arr = arr.reshape(shape + (4,))
+        flat = ' '.join(str(x) for q in rows for x in q)
+        for name, f, op in (('plane4to3', miller.plane4to3, 'p43arr'), ('vector4to3', miller.vector4to3, 'v43arr')):
             r, e = _call(f, arr)
-            outs = ctx.driver.ask_many([f'{op} {atol_s} %d %d %d %d' % tuple(q) for q in rows])
-            model_err = next((o for o in outs if o.startswith('err:')), None)
-            ctx.stats.case(name + ':guard-array', (name, kind, tuple(map(tuple, rows))), nontrivial=False)
-            if (e or 'value') != (model_err or 'value'):
-                ctx.disagree(name + ':guard-array', f'{name}: array {arr.tolist()} (rows off by {offs}): implementation '
-                             f'{e or "returned a value"}, model row-wise {model_err or "accepts every row"}',
-                             {'op': name + ':guard-array', 'input': arr.tolist(), 'impl': e or _tolist(r)})
+            if e is None and np.asarray(r).shape != arr.shape[:-1] + (3,):
+                ctx.disagree(name + ':array', f'{name}: result shape {np.asarray(r).shape} for input shape {arr.shape}',
+                             {'op': name + ':array', 'input': arr.tolist()})
+                continue
+            B.add(name + ':array', f'{op} {atol_s} {flat}', r, e, _cmp_exact,
+                  {'array': arr.tolist(), 'rows_off_by': offs}, nontrivial=(kind == 'valid'),
+                  sample={'op': name, 'array': arr.tolist()})
     # non-integer four-index vectors: images of vector3to4 (thirds), tiny and small guard offsets
     for t in rng.sample(tri, ctx.n(300, 3000)):
         q = _ref_vector3to4(t)
@@ -1235,10 +1245,27 @@ def _guard(ctx, key, replay, fn, *args):
         ctx.violate(key + ':raises', f'{key}: the implementation raised {type(e).__name__}: {e} on {replay}', replay)
 
 
+def _per_key_limit(ctx, limit=4):
+    """`check` keeps the first 50 violations: forward at most `limit` per key so that one failing clause with
+    thousands of inputs does not hide the failing inputs of the other clauses."""
+    counts = {}
+    orig = ctx.violate
+    if getattr(orig, '_c16_limited', False):
+        return
+
+    def violate(key, what, replay):
+        counts[key] = counts.get(key, 0) + 1
+        if counts[key] <= limit:
+            orig(key, what, replay)
+    violate._c16_limited = True
+    ctx.violate = violate
+
+
 def search(ctx, broken):
     np = _np()
     import atomman as am
     from atomman.tools import miller
+    _per_key_limit(ctx)
     rng = random.Random(ctx.seed + 16)
     mult = 3 if broken else 1
     N = ctx.n(6, 12)
